@@ -18,6 +18,9 @@ CLAIMED = {
     'C18': dict(design='DESIGN.md §3 C18', technique='deterministic simulation: member sources as nodes, seeded partition of a population and attachment order/attach-detach schedule, navigation through every facade, list-model (union scan) oracle; ddmin replay',
                 text='Seeded search over partitions of a population (overlapping copies, different versions of one id on different members) over 2-4 member sources (MemoryStore, FileSystemStore on the simulated disk, static MemorySource), attachment orders, attach/detach histories and all navigation options, through composite, nested composite, Environment and plain-store facades, compared with a scan of the union.',
                 note='Trusts: own list model and filter evaluator; navigation answers are compared as sets of (id, version); composite filters only on version-constant properties and only for get/all_versions/query (the property does not say whether attached filters apply to navigation).'),
+    'C07': dict(design='DESIGN.md §3 C07', technique='deterministic simulation: seeded marking-operation histories on evolving subjects under a steered simulated clock; set-of-pairs reference model with path-tree ancestry, query-agreement and metamorphic oracles; ddmin replay',
+                text='Seeded search over histories of add/remove/set/clear (object-level and granular) and get_markings/is_marked (all inherited x descendants x kind-switch combinations) on SDO/SRO objects, plain dicts and marking definitions of both spec versions, with selectors from an own path enumerator (prefix siblings, list indices, nested paths) and marking-ref and language markings.',
+                note='Trusts: the set model is what the property states; selectors that descend into embedded library objects may be refused for object subjects (C08 matter); is_marked is checked for a single marking or None.'),
 }
 
 NA = {
